@@ -50,7 +50,15 @@ def judge(acc, database, schema, d, path, case, what):
     state = "absent"
     if os.path.exists(path):
         state = "present"
-        pr = F.complete_db_problems(path, fs, SCHEMAS[schema])
+        # judged on a copy: looking at the file with sqlite3 must not repair it (hot journal) before the restart below
+        peek = new_workdir("c19p")
+        try:
+            for f in os.listdir(d):
+                if os.path.isfile(os.path.join(d, f)):
+                    shutil.copy(os.path.join(d, f), os.path.join(peek, f))
+            pr = F.complete_db_problems(os.path.join(peek, os.path.basename(path)), fs, SCHEMAS[schema])
+        finally:
+            rmtree(peek)
         if pr:
             viol(acc, case, "interrupted creation left an incomplete database at the target path", {"problems": pr, "listing": F.listing(d)})
             return
@@ -313,7 +321,7 @@ def run_existing(job, acc):
     target = SCHEMAS[schema]
     classes = ["valid", "empty", "random-bytes", "text", "truncated", "newer", "no-version-row", "no-version-table",
                "older-without-upgrader", "create-only-on-existing", "open-only-missing", "open-only-existing", "magic-then-junk",
-               "create-next-to-siblings"]
+               "create-next-to-siblings", "create-only-on-missing", "fk-violation"]
     cls = classes[s % len(classes)]
     base = new_workdir("c19e")
     case = "existing:%s:%s:%d" % (cls, schema, s)
@@ -364,6 +372,30 @@ def run_existing(job, acc):
             expect = "keep"
         elif cls == "create-next-to-siblings":
             expect = "create"
+        elif cls == "create-only-on-missing":
+            # the create-only entry points produce the same complete, correctly versioned database
+            opener = (lambda: database.create_channel_db(path)) if schema == "channel" else (lambda: database.create_usage_db(path))
+            expect = "create"
+        elif cls == "fk-violation":
+            # a current-version database that fails the start-up integrity check (a side row without its
+            # mailbox / nameplate) is refused and left exactly as it is
+            make_valid(database, schema if schema == "channel" else "channel", path, r, nrows=6)
+            schema = "channel"
+            target = SCHEMAS["channel"]
+            opener = creator(database, "channel", path)
+            c = sqlite3.connect(path)
+            k = r.randrange(3)
+            if k == 0:
+                c.execute("INSERT INTO mailbox_sides (mailbox_id, opened, side, added) VALUES ('no-such-mailbox', 1, 's', 1)")
+            elif k == 1:
+                c.execute("INSERT INTO nameplate_sides (nameplates_id, claimed, side, added) VALUES (987654, 1, 's', 1)")
+            else:
+                c.execute("INSERT INTO nameplates (app_id, name, mailbox_id) VALUES ('a', '77', 'no-such-mailbox')")
+            c.commit()
+            c.close()
+            if r.random() < 0.5:
+                opener = lambda: database.open_existing_db(path)
+            expect = "reject"
         # other files of the same installation live next to the database (e.g. --usage-db relay.sqlite.usage,
         # backups, unrelated files): whatever happens to `path`, they are never touched
         siblings = {}
